@@ -19,9 +19,10 @@ RejectItems(e, items) ==
   /\ bad' = bad + 1 /\ UNCHANGED <<cfg, written, skip>>
 
 Align8(n) == ((n + 7) \div 8) * 8
-BaseOf == [cls |-> IF cfg.base = "str" THEN 3 ELSE IF cfg.base = "i32" THEN 0 ELSE 1,
-           size |-> IF cfg.base = "str" THEN 1 ELSE IF cfg.base = "i32" THEN 4 ELSE 8,
-           vl |-> IF cfg.base = "str" THEN 1 ELSE 0]
+BaseOf == [cls |-> IF cfg.base = "str" THEN 3 ELSE IF cfg.base \in {"i32", "i64", "u32", "u64"} THEN 0 ELSE 1,
+           size |-> IF cfg.base = "str" THEN 1 ELSE IF cfg.base \in {"i32", "u32", "f32"} THEN 4 ELSE 8,
+           vl |-> IF cfg.base = "str" THEN 1 ELSE 0,
+           sign |-> IF cfg.base \in {"i32", "i64"} THEN 1 ELSE IF cfg.base \in {"u32", "u64"} THEN 0 ELSE -1]   \* -1: not a fixed-point base
 
 CollItems(c) ==
   LET n == Len(c.sizes)
@@ -49,7 +50,7 @@ Step(e) ==
                \o (IF e.open = "ok" /\ e.found /\ e.cls # 9
                    THEN <<[diag |-> "not-recognised-as-variable-length", cls |-> e.cls, size |-> e.size]>> ELSE <<>>)
                \o (IF e.open = "ok" /\ e.found /\ e.cls = 9 /\ (e.vltype # BaseOf.vl \/ e.basecls # BaseOf.cls \/ e.basesize # BaseOf.size
-                                                             \/ (cfg.base = "i32" /\ "basesign" \in DOMAIN e /\ e.basesign # 1))    \* a signed base type stays signed
+                                                             \/ (BaseOf.sign # -1 /\ "basesign" \in DOMAIN e /\ e.basesign # BaseOf.sign))    \* a signed base type stays signed, an unsigned one unsigned
                    THEN <<[diag |-> "wrong-base-type", vltype |-> e.vltype, basecls |-> e.basecls, basesize |-> e.basesize,
                            basesign |-> IF "basesign" \in DOMAIN e THEN e.basesign ELSE -1]>> ELSE <<>>)
                \o (IF e.rstr = "differs" THEN <<[diag |-> "ReadStrings-returns-other-values"]>> ELSE <<>>)
